@@ -1,6 +1,5 @@
 from __future__ import annotations
 
-from dataclasses import is_dataclass
 import inspect
 import warnings
 from abc import ABC
@@ -377,7 +376,9 @@ class Grammar:
             if c in self.alternatives:
                 for k in self.alternatives[c]:
                     add(k)
-            elif is_dataclass(c):
+            elif c in [bool, int, str, float, list, tuple]:
+                pass
+            else:  # a production: a dataclass or a class with a type-annotated constructor
                 for _, k in get_arguments(c):
                     pending = [k]
                     while pending:  # unwrap nested annotations, lists, tuples and unions
@@ -388,10 +389,6 @@ class Grammar:
                             pending.extend(get_generic_parameters(k))
                         else:
                             add(k)
-            elif c in [bool, int, str, float, list, tuple]:
-                pass
-            else:
-                assert False
 
         return extract_grammar(considered_subtypes, self.starting_symbol)
 
